@@ -13,7 +13,7 @@ another call, in a conditional test, inside an Ink function, after glue, in choi
 condition; arguments are unique per site (literals and a running global), so the by-construction reference \
 knows the exact call sequence, the arguments, the text each line must show, and how many lines precede each \
 call. Configurations: bound look-ahead-safe; bound unsafe; unbound with fallbacks allowed; unbound with \
-fallbacks disallowed. Oracles: output text equals the reference in all modes; safe: the call log is the \
+fallbacks disallowed; the bound modes also with every line finished by time-limited continues that pause after 1-3 interpreter steps (virtual clock). Oracles: output text equals the reference in all modes; safe: the call log is the \
 reference sequence with contiguous blocks possibly repeated (speculative re-execution); unsafe: the log \
 equals the reference exactly and every call has lines_delivered >= the number of reference lines before it, \
 and a call from string/choice text yields an error, not a call; fallback: no host call, text computed by the \
@@ -261,7 +261,8 @@ pub fn exec(case: &J, acc: &mut Acc) -> Result<(), Fail> {
         allow_fallbacks: mode != "disallowed",
         ..HostCfg::default()
     };
-    let show = json!({"source": prog.src, "mode": mode});
+    let sliced = case["sliced"].as_u64().unwrap_or(0) as u32;
+    let show = json!({"source": prog.src, "mode": mode, "sliced": sliced});
     let fail = |key: &str, msg: String| {
         let mut c = case.clone();
         c["shown"] = show.clone();
@@ -271,7 +272,20 @@ pub fn exec(case: &J, acc: &mut Acc) -> Result<(), Fail> {
         let mut h = Host::new(&json_text, meta.clone(), &cfg).map_err(|e| e.to_string())?;
         for _ in 0..40 {
             if h.story.can_continue() {
-                h.apply(&HostOp::Continue);
+                if sliced > 0 {
+                    // the line is finished by time-limited continues that pause after `sliced`
+                    // interpreter steps each (virtual clock)
+                    let mut n = 0;
+                    loop {
+                        h.apply(&HostOp::Slice(sliced));
+                        n += 1;
+                        if !h.story.verif_async_active() || n > 5000 {
+                            break;
+                        }
+                    }
+                } else {
+                    h.apply(&HostOp::Continue);
+                }
                 if matches!(h.trace.last(), Some(Obs::Err { .. })) || h.trace.iter().rev().take(2).any(|o| matches!(o, Obs::Err { .. })) {
                     break;
                 }
@@ -429,8 +443,9 @@ pub fn run(env: &Env) -> i32 {
         n,
         || proptest::collection::vec(proptest::num::u16::ANY, 0..200),
         |tape: &Vec<u16>, acc: &mut Acc| {
-            for (mode, sc) in [("safe", true), ("unsafe", false), ("unsafe", true), ("fallback", true), ("disallowed", true)] {
-                let case = json!({"tape": tape, "mode": mode, "string_calls": sc});
+            let step = 1 + (tape.last().copied().unwrap_or(0) % 3) as u64;
+            for (mode, sc, sliced) in [("safe", true, 0), ("unsafe", false, 0), ("unsafe", true, 0), ("fallback", true, 0), ("disallowed", true, 0), ("unsafe", false, step), ("safe", true, step)] {
+                let case = json!({"tape": tape, "mode": mode, "string_calls": sc, "sliced": sliced});
                 acc.sample(|| {
                     let mut t = Tape::new(tape);
                     json!({"mode": mode, "source": gen_prog(&mut t, true).src})
